@@ -45,7 +45,7 @@ import (
 const (
 	// Sherpa-specific constants that aren't in the base proxy package
 	DefaultSetNoDelay         = true
-	DefaultDisableCompression = false
+	DefaultDisableCompression = true // relay what the backend sent: no Accept-Encoding of our own, no transparent gunzip
 
 	DefaultMaxIdleConns        = 20
 	DefaultMaxIdleConnsPerHost = 5
